@@ -20,6 +20,18 @@ Known findings (the model reproduces them, the oracle fails on them, `known_find
 the characterised deviation): F11 (double count of an ordinary GT paired with a failing estimate), N1
 (per-label TP rate above one when TP pairs have different labels), N2 (`num_*` raise TypeError on an empty
 table).
+
+Additions after the audit: (a) op `raw_rows`: the model also receives the objects AS GIVEN to the real code (base_link or map frame,
+with heights, and the frame's ego pose) and applies its own model of `transforms.transform((frame, BASE_LINK), ...)` of `format2dict` /
+`get_area_idx` (`PEval.Analyzer.addAllRaw`); the resulting x, y, yaw, area and distance columns are compared with the real table.
+(b) `GroundTruthStatus.get_status_rates()`, `StatusRate.rate` and `get_scene_rates()` are observed on the real records and compared
+with `PEval.Analyzer.statusRates` / `sceneRates`; the oracle demands rate = #tally entries of the status / #tally entries, in [0,1],
+scene rates summing to 1; `float("inf")` for a status that never occurred is reproduced by the model and not judged (an observation,
+not a clause of C19).
+(c) flavour `n3` and corpus case n3.json: pass/fail target labels that hold "false_positive" while the config's do not; an FP result then
+keeps an FP-labelled ground truth; `get_confusion_matrix()` / `analyze()` used to raise ValueError there (N3, fixed in /repo by 24663d1: the
+labels met in the paired rows are appended to the index of the matrix); the model follows the repaired code (index and order of the appended
+labels are compared), the oracle judges these cases like any other.
 """
 from __future__ import annotations
 
@@ -55,7 +67,10 @@ RULE = (
     "get_pair_results / get_num_*(df=selection) / get_num_*(**kw); the range as tuple / list / ndarray / ints; "
     "a case is non-trivial when its table has at least one row; distinct = distinct canonical case; "
     "first of all the witness inputs of the decision tables (kinds 'area', 'rows'): concrete inputs realising the valuations on which "
-    "the code's regenerated table and the model's skeleton differ (none on an unchanged source)"
+    "the code's regenerated table and the model's skeleton differ (none on an unchanged source); "
+    "last, from a generator of its own (the cases before are unaffected): 6 (quick) / 36 (thorough) cases of flavour n3 - pass/fail target labels = "
+    "config labels + 'false_positive', FP-labelled ground truths with a MATCHING estimate (an FP result keeping the FP-labelled GT: N3), every ground "
+    "truth and its estimates at their own height, the ego (map frame) at another height"
 )
 THEOREMS = [
     "PEval.C19." + t
@@ -77,11 +92,25 @@ THEOREMS = [
         # decision tables extracted from the real code (harness/dt_c19.py), regenerated on every run
         "analyzer_table_check", "analyzer_code_table_eq_model", "area_code_table_eq_getAreaIdx", "table_area_spec",
         "table_on_grid_line", "rows_code_table_eq_model", "table_rows_per_item", "table_rows_examples",
+        # N3 (fixed): the repaired get_confusion_matrix / analyze are total, the matrix sums to the paired rows over the extended index and
+        # equals the old one whenever that was defined; the PRE-FIX functions raised ValueError iff a paired row carries a label outside
+        # target_labels + unknown; witness for a variant that drops such rows
+        "confusion_total", "analyze_total", "confusion_error_iff", "analyze_error_iff", "confusion_error_frames", "analyze_total_of_labels", "example_n3",
+        "confusion_skip_fails",
+        # rows are expressed in the ego frame for objects given in base_link OR map (format2dict / get_area_idx transform steps)
+        "rows_from_raw", "ego_row_of_rendering", "ego_frame_invariance", "example_ego_rows", "toRow_noTransform_fails",
+        # which rows feed summarize_error (ALL; per label keyed by the GROUND TRUTH's label) and what the summaries are
+        "error_summary_rows", "error_summary_whole", "error_summary_functions", "example_error_summary", "summary_by_est_fails",
+        # GroundTruthStatus.get_status_rates / StatusRate.rate / get_scene_rates
+        "status_rates_unit", "scene_rates_unit_sum", "scene_rates_f11_exact", "example_status_rates",
     ]
 ]
 TRUSTED = [
     "pandas (MultiIndex frames, xs, boolean masks, groupby(level=0).any(), concat) is modelled by lists of row pairs",
-    "pyquaternion yaw_pitch_roll / HomogeneousMatrix inverse: ego-frame x, y, yaw are supplied by the harness from the generated scene (truth), the real values are compared within 1e-9",
+    "pyquaternion yaw_pitch_roll / HomogeneousMatrix inverse: op 'analyze' receives the ego-frame x, y, yaw of the generated scene (truth); op 'raw_rows' receives the "
+    "objects AS GIVEN to the real code (the floats of the base_link / map coordinates as exact rationals, the map-frame yaw and the ego yaw in half-turns, the ego "
+    "rotation as the rationals of cos / sin) and applies the model of transform((frame, BASE_LINK), ...) itself (PEval.Analyzer.addAllRaw); both are compared with "
+    "the real table within 1e-9 (that rot and tau describe the same angle is the bridge of DESIGN 4.2)",
     "numpy mean/std/sqrt/max/min/bincount: the model computes mean, RMS^2, variance, max|e|, min|e| exactly",
     "harness/dt_c19.py + harness/dtable.py + harness/dt_multi.py (decision-table translator): the symbolic numbers (rational linear "
     "forms that numpy stores in object arrays; a comparison is answered from one order atom per (position, grid line); the sign of "
@@ -94,7 +123,14 @@ ASSUMPTIONS = [
     "ground truths of one frame are pairwise distinct under DynamicObject.__eq__ and have distinct uuids (C03's hypothesis)",
     "max_x_position, max_y_position > 0",
     "columns speed, nn_plane, distance (square roots) and the metric-score columns of analyze().score are not modelled (AP/CLEAR belong to C04/C05)",
-    "pass/fail target labels are those of the config (a paired row with a label outside target_labels+unknown makes get_confusion_matrix raise ValueError: outside the property's domain, reported as N3)",
+    "N3 (FIXED in /repo, fix: 24663d1): with pass/fail target labels that hold 'false_positive' while the evaluation config's do not (flavour 'n3', corpus n3.json), an "
+    "FP result keeps an FP-labelled ground truth and the paired row carries a label outside target_labels + unknown; get_confusion_matrix() / analyze() used to raise "
+    "ValueError there (pre-fix model getConfusionMatrixOld / analyzeOld, PEval.C19.confusion_error_iff); the repaired code appends such labels to the index, the model "
+    "follows it (PEval.C19.confusion_total) and the oracle judges these cases like any other (no exception, matrix sums to the paired rows); every other flavour uses "
+    "the config's labels for pass/fail",
+    "StatusRate.rate returns float('inf') for a status that never occurred for a ground truth (count 0, total > 0): by the property text not a C19 clause (the [0,1] "
+    "clause is about analyze()'s ratios); modelled as the code does it (PEval.C19.status_rates_unit), not judged (histogram key observed:status-rate-inf); the oracle's "
+    "rate clause is 'rate = #tally entries of the status / #tally entries', the tallies themselves being judged against the pass/fail lists (F11)",
     "add_frame is exercised through add() (a direct call raises KeyError because add() creates the transforms entry)",
     "analyze() on an empty table with keyword selections is not exercised",
     "get_num_*(df=<empty selection of a non-empty table>) raises KeyError in the unchanged library; analyze() never calls them there (it returns "
@@ -137,6 +173,18 @@ def _label(name):
     return Label(l, l.value, [])
 
 
+def _render(o, frame_id, ego):
+    """(x, y, z, yaw) exactly as handed to the real DynamicObject: the ego-frame data, moved into the map frame if asked
+    (ego = [x, y, yaw in sixteenths of a half-turn] or [x, y, yaw, z])"""
+    x, y, z, yaw = o["x"], o["y"], o.get("z", 0.0), _yaw(o["yaw"])
+    if frame_id == "map":
+        ex, ey, ek = ego[:3]
+        c, s = math.cos(_yaw(ek)), math.sin(_yaw(ek))
+        x, y, yaw = ex + c * x - s * y, ey + s * x + c * y, yaw + _yaw(ek)
+        z = z + (ego[3] if len(ego) > 3 else 0.0)
+    return x, y, z, yaw
+
+
 def _mk(o, t, frame_id, ego):
     """the real DynamicObject of a case object (ego-frame data), rendered into the map frame if asked"""
     from perception_eval.common.object import DynamicObject
@@ -144,14 +192,10 @@ def _mk(o, t, frame_id, ego):
     from perception_eval.common.shape import Shape, ShapeType
     from pyquaternion import Quaternion
 
-    x, y, yaw = o["x"], o["y"], _yaw(o["yaw"])
-    if frame_id == "map":
-        ex, ey, ek = ego
-        c, s = math.cos(_yaw(ek)), math.sin(_yaw(ek))
-        x, y, yaw = ex + c * x - s * y, ey + s * x + c * y, yaw + _yaw(ek)
+    x, y, z, yaw = _render(o, frame_id, ego)
     vel = None if o["v"] is None else (o["v"][0], o["v"][1], 0.0)
     return DynamicObject(
-        t, FrameID.MAP if frame_id == "map" else FrameID.BASE_LINK, (x, y, 0.0),
+        t, FrameID.MAP if frame_id == "map" else FrameID.BASE_LINK, (x, y, z),
         Quaternion(axis=[0, 0, 1], angle=yaw), Shape(ShapeType.BOUNDING_BOX, (o["w"], o["len"], 1.5)),
         vel, o.get("conf", 0.9), _label(o["l"]), uuid=o["u"], pointcloud_num=10,
     )
@@ -208,7 +252,7 @@ def _evaluate(case):
         for fr in sc:
             ego = fr.get("ego") or [0.0, 0.0, 0]
             if case["frame_id"] == "map":
-                tf = HomogeneousMatrix((ego[0], ego[1], 0.0), Quaternion(axis=[0, 0, 1], angle=_yaw(ego[2])), FrameID.BASE_LINK, FrameID.MAP)
+                tf = HomogeneousMatrix((ego[0], ego[1], ego[3] if len(ego) > 3 else 0.0), Quaternion(axis=[0, 0, 1], angle=_yaw(ego[2])), FrameID.BASE_LINK, FrameID.MAP)
             else:
                 tf = HomogeneousMatrix((0.0, 0.0, 0.0), (1.0, 0.0, 0.0, 0.0), FrameID.BASE_LINK, FrameID.MAP)
             t = fr["t"]
@@ -221,7 +265,8 @@ def _evaluate(case):
                 crit = CriticalObjectFilterConfig(cfg, L, max_x_position_list=[case["crit"]["x"]] * len(L), max_y_position_list=[case["crit"]["y"]] * len(L))
             else:
                 crit = CriticalObjectFilterConfig(cfg, L, max_distance_list=[case["crit"]["max"]] * len(L), min_distance_list=[case["crit"]["min"]] * len(L))
-            pf = PerceptionPassFailConfig(cfg, L, matching_threshold_list=[case["thr"]] * len(L))
+            PL = case.get("pf_labels") or L  # flavour 'n3': pass/fail target labels that differ from the config's
+            pf = PerceptionPassFailConfig(cfg, PL, matching_threshold_list=[case["thr"]] * len(PL))
             m.add_frame_result(t, gt, ests, crit, pf)
         scenes.append(list(m.frame_results))
     return cfg, scenes
@@ -272,7 +317,7 @@ def _cell(row):
     a = _f(row["area"])
     return {"st": str(st), "u": row["uuid"], "l": row["label"], "x": _f(row["x"]), "y": _f(row["y"]), "yaw": _f(row["yaw"]),
             "area": None if a is None else int(a), "frame": int(row["frame"]), "scene": int(row["scene"]),
-            "frame_id": row["frame_id"]}
+            "frame_id": row["frame_id"], "dist": _f(row["distance"])}
 
 
 def _rows(df):
@@ -388,7 +433,7 @@ def _analysis(an, sel, labels):
             err_df = an.summarize_error(df=df)
             cm_df = an.get_confusion_matrix(df=df)
     except Exception as e:
-        return {"err": type(e).__name__}
+        return {"err": type(e).__name__, "sel": seld}
     ratio = {str(l): [float(ratio_df.loc[l, c]) for c in ("TP", "FP", "TN", "FN")] for l in ratio_df.index}
     error = {}
     for l in ["ALL"] + labels:
@@ -415,6 +460,26 @@ def _status(frames):
 
     return [{"uuid": s.uuid, "total": list(s.total_frame_nums), "tp": list(s.tp_frame_nums), "fp": list(s.fp_frame_nums),
              "tn": list(s.tn_frame_nums), "fn": list(s.fn_frame_nums)} for s in get_object_status(frames)]
+
+
+def _rate(x):
+    """a rate as a JSON value: float, or the string 'inf' / 'nan'"""
+    x = float(x)
+    return "inf" if math.isinf(x) else "nan" if math.isnan(x) else x
+
+
+def _status_rates(frames):
+    """the REAL GroundTruthStatus.get_status_rates() / StatusRate.rate of every record and get_scene_rates() of the list"""
+    from perception_eval.common.status import get_scene_rates
+    from perception_eval.evaluation.result.perception_frame_result import get_object_status
+
+    sts = get_object_status(frames)
+    recs = []
+    for s in sts:
+        rs = s.get_status_rates()
+        recs.append({"uuid": s.uuid, "order": [str(r.status) for r in rs], "rates": [_rate(r.rate) for r in rs],
+                     "counts": [len(r.status_frame_nums) for r in rs], "total": len(s.total_frame_nums)})
+    return {"records": recs, "scene": [_rate(x) for x in get_scene_rates(sts)]}
 
 
 def _run_area(case):
@@ -518,6 +583,13 @@ def run_impl(case):
         out["status"] = {"scenes": [_status(sc) for sc in scenes], "all": _status([f for sc in scenes for f in sc])}
     except Exception as e:
         out["status"] = {"err": type(e).__name__}
+    try:
+        from perception_eval.common.status import get_scene_rates
+
+        out["status_rates"] = {"scenes": [_status_rates(sc) for sc in scenes], "all": _status_rates([f for sc in scenes for f in sc]),
+                               "empty": [_rate(x) for x in get_scene_rates([])]}
+    except Exception as e:
+        out["status_rates"] = {"err": type(e).__name__}
     return out
 
 
@@ -560,6 +632,24 @@ def _mobj(o):
             "vx": None if o["v"] is None else core.q(o["v"][0]), "vy": None if o["v"] is None else core.q(o["v"][1])}
 
 
+def _mraw(o, frame_id, ego):
+    """the object AS GIVEN to the real code: the very floats of `_render` as exact rationals, the yaw of that frame in half-turns"""
+    x, y, z, _yawf = _render(o, frame_id, ego)
+    k = _norm_k(o["yaw"] + (ego[2] if frame_id == "map" else 0))
+    return {"frame": "map" if frame_id == "map" else "base_link", "u": o["u"], "l": o["l"], "x": core.q(x), "y": core.q(y), "z": core.q(z),
+            "yaw": core.q(_tau(k)), "w": core.q(o["w"]), "len": core.q(o["len"]),
+            "vx": None if o["v"] is None else core.q(o["v"][0]), "vy": None if o["v"] is None else core.q(o["v"][1])}
+
+
+def _mpose(frame_id, ego):
+    """the frame's ego pose base_link -> map (identity for a base_link evaluation): rotation as the rationals of cos / sin, yaw in half-turns"""
+    if frame_id != "map":
+        return {"c": "1", "s": "0", "tau": "0", "x": "0", "y": "0", "z": "0"}
+    a = _yaw(ego[2])
+    return {"c": core.q(math.cos(a)), "s": core.q(math.sin(a)), "tau": core.q(_tau(_norm_k(ego[2]))), "x": core.q(ego[0]), "y": core.q(ego[1]),
+            "z": core.q(ego[3] if len(ego) > 3 else 0.0)}
+
+
 def _objs_of(fr):
     d = {}
     for o in fr["gts"] + fr["ests"]:
@@ -596,7 +686,20 @@ def model_requests(case, out):
         scenes.append(frames)
     req = {"op": "analyze", "empty_raises": _empty_raises(), "division": case["division"], "max_x": core.q(mx), "max_y": core.q(my), "labels": case["labels"],
            "scenes": scenes, "sels": [_msel(s) for s in case["sels"]]}
-    return [req] + pf_reqs
+    # the same pass/fail lists with the objects AS GIVEN (base_link or map frame) and the frames' ego poses: the model transforms
+    raw_scenes = []
+    for sc_case, sc_out in zip(case["scenes"], out["frames"]):
+        frames = []
+        for fr, lists in zip(sc_case, sc_out):
+            objs = _objs_of(fr)
+            ego = fr.get("ego") or [0.0, 0.0, 0]
+            mr = lambda u: None if u is None else _mraw(objs[u], case["frame_id"], ego)  # noqa: E731
+            frames.append({"ego": _mpose(case["frame_id"], ego), "n": lists["n"], "tp": [[mr(e), mr(g)] for e, g in lists["tp"]],
+                           "fp": [[mr(e), mr(g)] for e, g in lists["fp"]], "tn": [mr(u) for u in lists["tn"]], "fn": [mr(u) for u in lists["fn"]],
+                           "critical": [mr(u) for u in lists["critical"]]})
+        raw_scenes.append(frames)
+    raw_req = {"op": "raw_rows", "division": case["division"], "max_x": core.q(mx), "max_y": core.q(my), "scenes": raw_scenes}
+    return [req] + pf_reqs + [raw_req]
 
 
 def _angle_close(a, b):
@@ -730,11 +833,36 @@ def compare(case, out, resps):
                         return f"{tag}: error {l}/{c}/{key} impl {s[key]} != model {ref[key]}"
         if a["cm"] != b["cm"]:
             return f"{tag}: confusion matrix impl {a['cm']} != model {b['cm']}"
+        msel = (r.get("selections") or [None] * len(out["analyses"]))[i]
+        if a["cm"] is not None and msel is not None and "cm_labels" in msel and a["cm_labels"] != msel["cm_labels"]:
+            return f"{tag}: index of the confusion matrix impl {a['cm_labels']} != model {msel['cm_labels']}"
     # get_object_status
     if "err" in out["status"]:
         return f"get_object_status raised {out['status']['err']}"
     if out["status"]["all"] != r["status"]["all"] or out["status"]["scenes"] != r["status"]["scenes"]:
         return f"get_object_status impl {out['status']['all']} != model {r['status']['all']}"
+    # GroundTruthStatus.get_status_rates / StatusRate.rate / get_scene_rates
+    sr = out.get("status_rates")
+    if sr is not None and "status_rates" in r:
+        if "err" in sr:
+            return f"get_status_rates / get_scene_rates raised {sr['err']}"
+        groups = [(f"scene {i}", a, b, c) for i, (a, b, c) in enumerate(zip(sr["scenes"], r["status_rates"]["scenes"], r["scene_rates"]["scenes"]))]
+        groups.append(("all scenes", sr["all"], r["status_rates"]["all"], r["scene_rates"]["all"]))
+        for name, a, mrecs, mscene in groups:
+            if [x["uuid"] for x in a["records"]] != [x["uuid"] for x in mrecs]:
+                return f"{name}: status-rate records impl {[x['uuid'] for x in a['records']]} != model {[x['uuid'] for x in mrecs]}"
+            for x, y in zip(a["records"], mrecs):
+                if x["order"] != ["TP", "FP", "TN", "FN"]:
+                    return f"{name}: get_status_rates order {x['order']}"
+                for st, v, w in zip(x["order"], x["rates"], y["rates"]):
+                    if (v == "inf") != (w == "inf") or v == "nan" or (v != "inf" and not core.close(v, core.unq(w), abs_=1e-12)):
+                        return f"{name}: status rate {x['uuid']}/{st} impl {v} != model {w}"
+            ms = ["inf"] * 4 if mscene == "inf" else mscene
+            for st, v, w in zip(("TP", "FP", "TN", "FN"), a["scene"], ms):
+                if (v == "inf") != (w == "inf") or v == "nan" or (v != "inf" and not core.close(v, core.unq(w), abs_=1e-12)):
+                    return f"{name}: scene rate {st} impl {v} != model {w}"
+        if (sr["empty"] == ["inf"] * 4) != (r["scene_rates"]["empty"] == "inf"):
+            return f"get_scene_rates([]) impl {sr['empty']} != model {r['scene_rates']['empty']}"
     # PassFailResult.evaluate
     k = 1
     for sc in out["frames"]:
@@ -744,6 +872,28 @@ def compare(case, out, resps):
             for key in ("tp", "fp", "tn", "fn"):
                 if lists[key] != b[key]:
                     return f"pass/fail list {key} of frame {lists['n']}: impl {lists[key]} != model {b[key]}"
+    # the table from the objects AS GIVEN (the model applies transform((frame, BASE_LINK), ...) itself): x, y, yaw, area, distance
+    if k < len(resps) and "rows" in resps[k]:
+        rr = resps[k]
+        if rr.get("area_error"):
+            return "model (raw objects): get_area_idx matched more than one area"
+        if len(rr["rows"]) != len(rows):
+            return f"table has {len(rows)} row pairs, model (raw objects) {len(rr['rows'])}"
+        for a, b, d2 in zip(rows, rr["rows"], rr["dist2"]):
+            for side, ca, cb, dd in (("ground_truth", a[2], b[1], d2[0]), ("estimation", a[5], b[2], d2[1])):
+                if (ca is None) != (cb is None):
+                    return f"row {a[0]} {side}: impl {'NaN' if ca is None else ca['st']} vs model (raw objects) {'NaN' if cb is None else cb['st']}"
+                if ca is None:
+                    continue
+                for key in ("st", "u", "l", "area", "frame", "scene"):
+                    if ca[key] != cb[key]:
+                        return f"row {a[0]} {side} column {key}: impl {ca[key]!r} != model (raw objects) {cb[key]!r}"
+                if not core.close(ca["x"], core.unq(cb["x"])) or not core.close(ca["y"], core.unq(cb["y"])):
+                    return f"row {a[0]} {side} ego-frame position: impl ({ca['x']},{ca['y']}) != model transform of the given object ({float(core.unq(cb['x']))},{float(core.unq(cb['y']))})"
+                if not _angle_close(ca["yaw"], float(core.unq(cb["yaw"])) * PI):
+                    return f"row {a[0]} {side} ego-frame yaw: impl {ca['yaw']} != model transform of the given object {float(core.unq(cb['yaw'])) * PI}"
+                if ca.get("dist") is not None and not core.close(ca["dist"], math.sqrt(float(core.unq(dd)))):
+                    return f"row {a[0]} {side} distance: impl {ca['dist']} != model sqrt({dd})"
     return None
 
 
@@ -998,6 +1148,8 @@ def _check(case, out):
             tot = sum(sum(r) for r in a["cm"])
             if tot != a["paired_rows"]:
                 fails.append(("cm_sum", None, f"{tag}: confusion matrix sums to {tot}, paired rows {a['paired_rows']}"))
+            if len(a["cm"]) != len(a["cm_labels"]) or any(len(r) != len(a["cm_labels"]) for r in a["cm"]):
+                fails.append(("cm_sum", None, f"{tag}: confusion matrix is not square over its index {a['cm_labels']}"))
         for l, cols in a["error"].items():
             y = cols["yaw"]
             if y is not None and y["max"] > PI + 1e-9:
@@ -1066,6 +1218,45 @@ def _check(case, out):
                     x = extra.get(u, [])
                     exact = bool(x) and sorted(s["total"]) == sorted(e["total"] + x) and sorted(s["fp"]) == sorted(e["fp"] + x) and all(sorted(s[k]) == sorted(e[k]) for k in ("tp", "tn", "fn"))
                     fails.append(("status_once", exact, f"{name}: ground truth {u} tallied total={s['total']} tp={s['tp']} fp={s['fp']} tn={s['tn']} fn={s['fn']}, critical in frames {e['total']}"))
+    # --- status rates: rate = #frames tallied with that status / #frames tallied (the tallies themselves are judged above);
+    #     every defined rate lies in [0,1]; float('inf') for a status that never occurred is not judged (observed:status-rate-inf)
+    sr = out.get("status_rates")
+    if sr is not None and "err" in sr:
+        fails.append(("exception", None, f"get_status_rates / get_scene_rates raised {sr['err']}"))
+    elif sr is not None and "err" not in st:
+        for name, g, tallies in [(f"scene {i}", x, st["scenes"][i]) for i, x in enumerate(sr["scenes"])] + [("all scenes", sr["all"], st["all"])]:
+            if [x["uuid"] for x in g["records"]] != [t["uuid"] for t in tallies]:
+                fails.append(("status_rate", None, f"{name}: rate records {[x['uuid'] for x in g['records']]} for tallies {[t['uuid'] for t in tallies]}"))
+                continue
+            sums = {"total": 0, "TP": 0, "FP": 0, "TN": 0, "FN": 0}
+            for x, t in zip(g["records"], tallies):
+                tot = len(t["total"])
+                sums["total"] += tot
+                if x["order"] != ["TP", "FP", "TN", "FN"]:
+                    fails.append(("status_rate", None, f"{name}: get_status_rates of {x['uuid']} in order {x['order']}"))
+                    continue
+                for stn, v in zip(x["order"], x["rates"]):
+                    c = len(t[stn.lower()])
+                    sums[stn] += c
+                    if c == 0 or tot == 0:
+                        if v != "inf" and v != 0.0:
+                            fails.append(("status_rate", None, f"{name}: rate {x['uuid']}/{stn} = {v} for a status that never occurred"))
+                        continue
+                    if v in ("inf", "nan") or not (0.0 <= v <= 1.0) or abs(v - c / tot) > 1e-12:
+                        fails.append(("status_rate", None, f"{name}: rate {x['uuid']}/{stn} = {v}, tallied in {c} of {tot} frames"))
+            if sums["total"] == 0:
+                if g["scene"] != ["inf"] * 4:  # documented: "If status_list is empty, returns sequence of float('inf')"
+                    fails.append(("status_rate", None, f"{name}: scene rates {g['scene']} with nothing tallied"))
+            else:
+                vals = g["scene"]
+                if any(v in ("inf", "nan") for v in vals):
+                    fails.append(("status_rate", None, f"{name}: scene rates {vals} although {sums['total']} frames are tallied"))
+                else:
+                    for stn, v in zip(("TP", "FP", "TN", "FN"), vals):
+                        if not (0.0 <= v <= 1.0) or abs(v - sums[stn] / sums["total"]) > 1e-12:
+                            fails.append(("status_rate", None, f"{name}: scene rate {stn} = {v}, tallied {sums[stn]} of {sums['total']}"))
+                    if abs(sum(vals) - 1.0) > 1e-9:
+                        fails.append(("status_rate", None, f"{name}: scene rates {vals} do not sum to 1"))
     return fails
 
 
@@ -1215,7 +1406,13 @@ def _gen_frame(rng, case, n, k_gt, opts):
         u = f"e{n}_{i}"
         r = rng.random()
         if fpl:
-            if r < 0.5:
+            if opts.get("fpl_close"):
+                # flavour 'n3': an estimate that MATCHES the FP-labelled ground truth (same yaw and size, within the threshold)
+                if r < 0.8:
+                    e = _gen_obj(rng, u, rng.choice(ordinary), x + off(0, 0.5), y + off(0, 0.5), yaw=g["yaw"])
+                    e["w"], e["len"] = g["w"], g["len"]
+                    ests.append(e)
+            elif r < 0.5:
                 ests.append(_gen_obj(rng, u, rng.choice(ordinary), x + off(0, 0.5), y + off(0, 0.5)))
             continue
         kinds = opts["kinds"]
@@ -1472,7 +1669,13 @@ def _gen_case(rng, flavour="plain"):
         case["task"] = "detection"
     elif case["policy"] != "default":
         opts["est_unknown"] = 0.25  # unknown estimates, "unknown" not a target label: rates stay within [0,1]
-    if flavour != "n1" and rng.random() < 0.2:
+    if flavour == "n3":
+        # pass/fail target labels hold "false_positive" (with a threshold), the evaluation config's do not: a matching estimate inside
+        # the threshold is an FP result that keeps its FP-labelled ground truth, a paired row with a label outside target_labels + unknown
+        case["pf_labels"] = case["labels"] + [FPL]
+        opts["p_fpl"] = 0.5
+        opts["fpl_close"] = True
+    if flavour not in ("n1", "n3") and rng.random() < 0.2:
         # "false_positive" a target label: FP-labelled ground truths get a threshold, a matching estimate
         # inside it is an FP result that keeps its FP-labelled ground truth (status (FP, FP))
         case["labels"] = case["labels"] + [FPL]
@@ -1502,8 +1705,21 @@ def _gen_case(rng, flavour="plain"):
             opts["n_free"] = rng.choice([0, 0, 1, 2]) if flavour != "no_f11" or case["radii"] else 0
             sc.append(_gen_frame(rng, case, start + j, k_gt, opts))
         scenes.append(sc)
+    if flavour == "n3":
+        # heights: every ground truth and the estimates derived from it stand at their own height, the ego (map frame) at another one
+        for sc in scenes:
+            for fr in sc:
+                for g in fr["gts"]:
+                    g["z"] = core.dyadic(rng, -3, 6, 4)
+                for e in fr["ests"]:
+                    tail = e["u"].split("_")[-1]
+                    e["z"] = fr["gts"][int(tail)]["z"] if tail.isdigit() and int(tail) < len(fr["gts"]) else core.dyadic(rng, -3, 6, 4)
+                if "ego" in fr:
+                    fr["ego"] = fr["ego"][:3] + [core.dyadic(rng, -20, 40, 4)]
     case["scenes"] = scenes
     case["sels"] = _gen_sels(rng, case, rng.randint(3, 6))
+    if flavour == "n3":
+        case["sels"] += [{"status": "TP", "mode": "analyze"}, {"status": ["FP", "FN"], "mode": "parts"}]
     return case
 
 
@@ -1650,6 +1866,13 @@ def generate(rng, tier):
             cases.append(_empty_case(rng, rng.random() < 0.5))
         else:
             cases.append(_gen_case(rng, "plain"))
+    # flavour 'n3' (pass/fail target labels != config's, object / ego heights) from a generator of its own, appended last,
+    # so that the cases above are the same as before
+    import random as _random
+
+    rng3 = _random.Random(sum(rng.getstate()[1][:8]) + (0 if tier == "quick" else 1))
+    for _ in range(6 if tier == "quick" else 36):
+        cases.append(_gen_case(rng3, "n3"))
     return cases
 
 
@@ -1757,6 +1980,28 @@ def branches(case, out):
         if isinstance(v, dict):
             b.append("num-raises:" + v["err"])
             break
+    if case.get("pf_labels"):
+        b.append("pf-labels:differ-from-config")
+        tl = set(case["labels"]) | {"unknown"}
+        if any(a.get("cm_labels") and not set(a["cm_labels"]) <= tl for a in out["analyses"]):
+            b.append("n3:confusion-matrix-with-extra-label")
+    if any(o.get("z") for sc in case["scenes"] for fr in sc for o in fr["gts"] + fr["ests"]):
+        b.append("heights:objects")
+    if any(len(fr.get("ego") or []) > 3 and fr["ego"][3] for sc in case["scenes"] for fr in sc):
+        b.append("heights:ego")
+    sr = out.get("status_rates")
+    if isinstance(sr, dict) and "err" not in sr:
+        for g in sr["scenes"] + [sr["all"]]:
+            for x in g["records"]:
+                if any(v == "inf" for v in x["rates"]) and x["total"] > 0:
+                    b.append("observed:status-rate-inf")
+                if any(v != "inf" for v in x["rates"]):
+                    b.append("status-rate:defined")
+                if sum(1 for v in x["rates"] if v != "inf") >= 2:
+                    b.append("status-rate:two-statuses-for-one-gt")
+            b.append("scene-rates:" + ("inf" if g["scene"] == ["inf"] * 4 else "defined"))
+    elif isinstance(sr, dict):
+        b.append("status-rates-raise:" + sr["err"])
     return sorted(set(b))
 
 
